@@ -29,10 +29,13 @@ try:
     shutil.copy(a.demo, f"{wt}/_demo.py")
     d0 = subprocess.run(["/venv/bin/python", "_demo.py"], cwd=wt, env=env, capture_output=True, text=True, timeout=1800)
     res["demo_unchanged_rc"] = d0.returncode
-    ap_ = sh(f"git -C {wt} apply {os.path.abspath(a.patch)}")
-    res["patch_applies"] = ap_.returncode == 0
-    if ap_.returncode != 0:
-        res["patch_error"] = ap_.stderr[-500:]
+    ap_ = sh(f"git -C {wt} apply --3way {os.path.abspath(a.patch)}")
+    sh(f"git -C {wt} reset -q")
+    conflict = "<<<<<<<" in sh(f"git -C {wt} diff").stdout
+    res["patch_applies"] = ap_.returncode == 0 and not conflict and bool(sh(f"git -C {wt} diff --stat").stdout.strip())
+    if not res["patch_applies"]:
+        res["patch_error"] = (ap_.stderr[-300:] + (" CONFLICT" if conflict else ""))
+    rebased = sh(f"git -C {wt} diff -- src").stdout
     imp = subprocess.run(["/venv/bin/python", "-c", "import aspire, aspire.samplers.smc.minipcn, aspire.samplers.smc.emcee, aspire.samplers.importance; print(aspire.__file__)"], cwd=wt, env=env, capture_output=True, text=True)
     res["imports"] = imp.returncode == 0 and wt in imp.stdout
     d1 = subprocess.run(["/venv/bin/python", "_demo.py"], cwd=wt, env=env, capture_output=True, text=True, timeout=1800)
@@ -64,8 +67,7 @@ print(json.dumps(res, indent=1))
 if ok:
     out = f"/verif/seeded/{a.id}"
     os.makedirs(out, exist_ok=True)
-    if os.path.abspath(a.patch) != os.path.abspath(f"{out}/patch.diff"):
-        shutil.copy(a.patch, f"{out}/patch.diff")
+    open(f"{out}/patch.diff", "w").write(rebased)      # the change as it applies to /repo's current HEAD
     shutil.copy(a.demo, f"{out}/demo.py")
     if a.notes and os.path.exists(a.notes):
         shutil.copy(a.notes, f"{out}/notes.md")
